@@ -296,6 +296,15 @@ func c08CheckProduced(e *c08Env, st *c08State, sel []bool, count uint64, lastInt
 		vs.Assert("packet-receipt-is-tss", false)
 	}
 	vs.Assert("exactly-one-signing-request", e.tss.Calls == 1)
+	// the signing request (from which the signed originator and content are built) names this tunnel, its
+	// destination and this packet's sequence number
+	vs.Assert("signing-request-names-this-tunnel", e.tss.LastTunnelID == c08TunnelID)
+	vs.Assert("signing-request-names-the-route-destination", e.tss.LastChainID == "chain-1" && e.tss.LastContract == "0xcontract")
+	if o, ok := e.tss.LastContent.(*types.TunnelSignatureOrder); ok {
+		vs.Assert("signed-content-carries-the-packet-sequence", o.Sequence == st.seq+1)
+	} else {
+		vs.Assert("signed-content-is-a-tunnel-order", false)
+	}
 
 	// content: exactly the selected signals, tunnel order, current feed entries
 	vs.Assert("packet-carries-exactly-the-selected-count", uint64(len(pk.Prices)) == count)
